@@ -81,8 +81,8 @@ PROPS["C04"] = dict(
 
 PROPS["C06"] = dict(
     level="proof",
-    verus=["c04_partition", "c10_engine", "c02_regex"],
-    labels=["C06.", "C07.engine.", "C10.engine.ok_replaces_rules", "C07.tags_with_set.", "C02.regex.make.function_of_inputs", "C02.regex.compile.function_of_inputs"] + MASK,
+    verus=["c04_partition", "c10_engine", "c02_regex", "c01_index"],
+    labels=["C06.", "C07.engine.", "C10.engine.ok_replaces_rules", "C07.tags_with_set.", "C02.regex.make.function_of_inputs", "C02.regex.compile.function_of_inputs", "C01.index."] + MASK,
     kani=[],
     witness=["c06_cache.rs"],
     trusted=["NetworkFilterList::add_filter appends to the rules held (C01 units)", "regex cache (unit c02_regex, two R7 lifts of the arms of `match self.map.entry(key)` in RegexManager::matches): the Entry API itself is outside the contracts - that `key` selects this rule's entry, VacantEntry::insert hands back the stored value, cleanup() only ever sets a held regex to None; whether a pattern text compiles and whether a compiled regex matches are functions of the text and flags (uninterpreted); usage counters do not overflow",
@@ -95,8 +95,8 @@ PROPS["C06"] = dict(
 
 PROPS["C07"] = dict(
     level="proof",
-    verus=["c01_lookup", "c04_partition", "c04_precedence", "c10_engine", "c05_optimizer"],
-    labels=["C07.", "C05.key.", "C01.check", "C04.check.important", "C04.check.matched", "C04.check.exception", "C04.new.importants", "C04.new.exceptions", "C04.new.tagged", "C04.new.csp"] + MASK,
+    verus=["c01_lookup", "c04_partition", "c04_precedence", "c10_engine", "c05_optimizer", "c03_apply_options", "c08_wire"],
+    labels=["C07.", "C05.key.", "C01.check", "C03.apply_options.", "C08.wire.roundtrip_fields", "C08.wire.ser_fields", "C08.wire.de_fields", "C04.check.important", "C04.check.matched", "C04.check.exception", "C04.new.importants", "C04.new.exceptions", "C04.new.tagged", "C04.new.csp"] + MASK,
     kani=[],
     trusted=["R6: the filter/clone iterator chain in tags_with_set computes the stated sub-sequence",
              "enable_tags/disable_tags set algebra (iterator chains) not under contract",
